@@ -10,7 +10,8 @@ EXTENDS Integers, Sequences, FiniteSets, TLC
 CONSTANT Gap      \* slices closer than this many bytes are merged (20 in the code; small in model checking so that
                   \* multi-slice results are reachable on short texts)
 
-\* a text is a sequence of <<width, class>>; class in {"a", ".", "!", "n", "s"}
+\* a text is a sequence of <<width, class>>; class in {"a", ".", "!", "n", "s", "w"}  ("w": multi-byte white space such as
+\* U+00A0 / U+3000 - the code skips ASCII white space only, so it behaves like a letter)
 W(ch) == ch[1]
 Cls(ch) == ch[2]
 
@@ -94,7 +95,7 @@ Contract(t, r, maxs) ==
 (* ------------------------------ enumeration ----------------------------- *)
 CONSTANTS MaxChars, Windows, Maxes, OccStarts, OccLens, MaxOcc
 VARIABLE c
-Alphabet == {<<1, "a">>, <<2, "a">>, <<4, "a">>, <<1, ".">>, <<1, "n">>, <<1, "s">>}
+Alphabet == {<<1, "a">>, <<2, "a">>, <<4, "a">>, <<1, ".">>, <<1, "n">>, <<1, "s">>, <<2, "w">>}
 Texts == UNION {[1..n -> Alphabet] : n \in 0..MaxChars}
 Occs == {<<s, s + d>> : s \in OccStarts, d \in OccLens}
 OccLists == UNION {[1..n -> Occs] : n \in 0..MaxOcc}
